@@ -52,6 +52,7 @@ def run(run):
                 "same query twice = same object; equal-looking inputs with different data = different names; non-trivial = every catalogue query")
     run.proofs("PropC08.v")
     quick = run.tier == "quick"
+    catalogue.write_parquet_dataset(rt.dx, os.path.join(common.BUILD, "cat_pq_c08"))     # once, before any interpreter builds the catalogue
     configs = [(0, 0, 0), (1, 1, 1), ("random", 2, 1)] + ([] if quick else [(12345, 3, 0), (7, 4, 1), ("random", 5, 1)])
     results = []
     for hs, order, warm in configs:
